@@ -519,6 +519,46 @@ def study_pb2_spec(space):
     return study_pb2.StudySpec(parameters=pc.SearchSpaceConverter.parameter_protos(space))
 
 
+# ---------------------------------------------------------------------------------------- bounded stand-in: IEEE time split
+def standin_times():
+    """the seconds/nanos split `int(x)`, `int(1e9 * (x - int(x)))` in IEEE double arithmetic (the proofs treat it as real
+    arithmetic): Measurement.elapsed_secs -> Duration and Trial creation/completion time -> Timestamp -> datetime"""
+    import random
+    rnd = random.Random(9)
+    bad, n = [], 0
+
+    def record(clause, desc, detail):
+        if len(bad) < 12:
+            bad.append({'clause': clause, 'input': desc, 'detail': detail})
+    fracs = [0.0, 1e-6, 2e-6, 0.1, 0.25, 0.3, 0.5, 0.999999, 0.999998, 0.000001, 0.123456, 0.654321, 0.7, 0.9]
+    wholes = [0, 1, 59, 3600, 86399, 10 ** 6, 2 ** 31 - 1, 2 ** 32 + 5]
+    xs = [w + f for w in wholes for f in fracs] + [rnd.randrange(0, 2 ** 32) + rnd.randrange(0, 10 ** 6) / 1e6 for _ in range(1500)]
+    for x in xs:
+        n += 1
+        p = pc.MeasurementConverter.to_proto(trial_lib.Measurement(elapsed_secs=x))
+        back = p.elapsed_duration.seconds + p.elapsed_duration.nanos / 1e9
+        if not abs(back - x) < 1e-6 or not (0 <= p.elapsed_duration.nanos < 10 ** 9):
+            record('C09.Measurement.ieee.elapsed_duration', repr(x), 'seconds=%d nanos=%d' % (p.elapsed_duration.seconds, p.elapsed_duration.nanos))
+    for x in xs:
+        if x > 4 * 10 ** 9:
+            continue
+        n += 1
+        t0 = datetime.datetime.fromtimestamp(x).astimezone()
+        t = trial_lib.Trial(id=1, description='d', creation_time=t0, completion_time=t0, final_measurement=trial_lib.Measurement())
+        p = pc.TrialConverter.to_proto(t)
+        y = pc.TrialConverter.from_proto(p)
+        for nm in ('creation_time', 'completion_time'):
+            d = abs(getattr(y, nm).timestamp() - getattr(t, nm).timestamp())
+            if not d < 1e-6:
+                record('C09.Trial.ieee.%s' % nm, repr(x), 'off by %r s' % d)
+        p2 = pc.TrialConverter.to_proto(y)
+        for nm in ('start_time', 'end_time'):
+            a, b = getattr(p, nm), getattr(p2, nm)
+            if abs((a.seconds + a.nanos / 1e9) - (b.seconds + b.nanos / 1e9)) >= 1e-6:
+                record('C09.Trial.ieee.idempotent.%s' % nm, repr(x), '%r vs %r' % ((a.seconds, a.nanos), (b.seconds, b.nanos)))
+    return n, bad
+
+
 def main(argv):
     if argv and argv[0] == 'findings':
         ok = True
@@ -533,6 +573,11 @@ def main(argv):
         return 0
     if argv and argv[0] == 'standin_metadata':
         n, bad = standin_metadata()
+        print(json.dumps({'cases': n, 'counterexamples': bad}, default=repr))
+        print('REPRODUCED' if bad else 'NOT-REPRODUCED')
+        return 0
+    if argv and argv[0] == 'standin_times':
+        n, bad = standin_times()
         print(json.dumps({'cases': n, 'counterexamples': bad}, default=repr))
         print('REPRODUCED' if bad else 'NOT-REPRODUCED')
         return 0
